@@ -463,4 +463,38 @@ def decode (c : Cpu) (pc : Nat) (bs : List UInt8) : Option (Instr × Nat) :=
       | _ => none
   | _ => none
 
+/-! ## byte-addressed code space (`cpu <device>:codesegsize=0`)
+
+`doc/processor-specific-hints.md`: the CPU argument `CODESEGSIZE=0` makes AS treat the flash as organised in bytes;
+"target addresses for relative and absolute branches automatically get divided by two", and an instruction must not
+start on an odd address.  The instruction set itself does not change: a statement whose code-address operand is the
+byte address `2·w` denotes the instruction that the same statement with the word address `w` denotes, located at word
+`pcByte / 2`; an odd code address is no instruction address. -/
+
+/-- does the mnemonic take a code address (its last operand)? -/
+def hasCodeOpd (m : Mn) : Bool :=
+  match (form m).opds.getLast? with
+  | some (.rel _) => true
+  | some .abs => true
+  | _ => false
+
+/-- the last operand value halved; `none` if it is odd -/
+def halveLast : List Int → Option (List Int)
+  | [] => some []
+  | [a] => if a % 2 = 0 then some [a / 2] else none
+  | v :: vs => (halveLast vs).map (v :: ·)
+
+/-- a statement written with byte addresses ↦ the statement with word addresses (`none`: odd code address) -/
+def wordStmt (s : Src) : Option Src :=
+  if hasCodeOpd s.mn then (halveLast s.args).map (Src.mk s.mn) else some s
+
+/-- legal source statements of device `c` when code addresses are written in bytes; `pcByte` = (even) byte address of the instruction -/
+def legalByte (c : Cpu) (pcByte : Nat) (s : Src) : Bool :=
+  match wordStmt s with
+  | some s' => legal c (pcByte / 2) s'
+  | none => false
+
+/-- the instruction such a statement denotes -/
+def meaningByte (s : Src) : Option Instr := (wordStmt s).map meaning
+
 end AslModel.Spec.IAvr
